@@ -26,16 +26,14 @@ type spec struct {
 	b    string // callee (callarg) | field name (fieldlit)
 	n    int    // arg index (callarg)
 	typ  string // Z | Q | bool
+	area string // output file Gen/Params<area>.v
 }
 
-var specs = []spec{
-	// numeric / prefix coding (C10)
-	{coq: "shift_start_int64", file: "numeric/prefix_coded.go", kind: "const", a: "ShiftStartInt64"},
-	{coq: "numeric_precision_step", file: "field.go", kind: "const", a: "defaultNumericPrecisionStep"},
-	{coq: "datetime_precision_step", file: "field.go", kind: "const", a: "defaultDateTimePrecisionStep"},
-	{coq: "geo_precision_step", file: "field.go", kind: "var", a: "geoPrecisionStep"},
-	{coq: "query_precision_step", file: "search/searcher/search_numeric_range.go", kind: "callarg", a: "NewNumericRangeSearcher", b: "splitInt64Range", n: 2},
-}
+// specs is filled by the init() functions of specs_*.go (one file per area).
+var specs []spec
+
+// sections: generators of tables that are not single constants (registered by init()).
+var sections []func(root string) (area string, text string, errs []string)
 
 type fileInfo struct {
 	f      *ast.File
@@ -314,46 +312,69 @@ func main() {
 		os.Exit(2)
 	}
 	root, out := os.Args[1], os.Args[2]
-	var sb strings.Builder
-	sb.WriteString("(* GENERATED by tools/goextract from the Go source on every run. Do not edit. *)\n")
-	sb.WriteString("From Coq Require Import ZArith QArith List.\nImport ListNotations.\nOpen Scope Z_scope.\n\n")
+	bodies := map[string]*strings.Builder{}
+	failed := map[string]bool{}
+	get := func(area string) *strings.Builder {
+		if b, ok := bodies[area]; ok {
+			return b
+		}
+		b := &strings.Builder{}
+		b.WriteString("(* GENERATED by tools/goextract from the Go source on every run. Do not edit. *)\n")
+		b.WriteString("From Coq Require Import ZArith QArith List.\nImport ListNotations.\nOpen Scope Z_scope.\n\n")
+		bodies[area] = b
+		return b
+	}
 	var errs []string
-	all := append([]spec{}, specs...)
-	all = append(all, extraSpecs()...)
-	for _, s := range all {
+	sort.SliceStable(specs, func(i, j int) bool { return specs[i].coq < specs[j].coq })
+	for _, s := range specs {
+		sb := get(s.area)
 		v, err := resolve(root, s)
 		if err != nil {
-			errs = append(errs, fmt.Sprintf("%s: %v", s.coq, err))
+			errs = append(errs, fmt.Sprintf("[%s] %s: %v", s.area, s.coq, err))
+			failed[s.area] = true
 			continue
 		}
 		src := fmt.Sprintf("(* %s: %s %s %s *)", s.file, s.kind, s.a, s.b)
 		switch s.typ {
 		case "Q":
-			fmt.Fprintf(&sb, "Definition %s : Q := (%s # %s)%%Q. %s\n", s.coq, coqZ(new(big.Rat).SetInt(v.Num())), v.Denom().String(), src)
+			fmt.Fprintf(sb, "Definition %s : Q := (%s # %s)%%Q. %s\n", s.coq, coqZ(new(big.Rat).SetInt(v.Num())), v.Denom().String(), src)
 		default:
 			if !v.IsInt() {
-				errs = append(errs, fmt.Sprintf("%s: non-integer value %s", s.coq, v.String()))
+				errs = append(errs, fmt.Sprintf("[%s] %s: non-integer value %s", s.area, s.coq, v.String()))
+				failed[s.area] = true
 				continue
 			}
-			fmt.Fprintf(&sb, "Definition %s : Z := %s. %s\n", s.coq, coqZ(v), src)
+			fmt.Fprintf(sb, "Definition %s : Z := %s. %s\n", s.coq, coqZ(v), src)
 		}
 	}
-	extra, eerrs := extraSections(root)
-	sb.WriteString(extra)
-	errs = append(errs, eerrs...)
+	for _, sec := range sections {
+		area, extra, eerrs := sec(root)
+		get(area).WriteString(extra)
+		for _, e := range eerrs {
+			errs = append(errs, fmt.Sprintf("[%s] %s", area, e))
+			failed[area] = true
+		}
+	}
+	// an area with an unresolved locator keeps its previous file (so that the proofs of other
+	// properties still build); the error is reported and the check of that area fails the tie
+	for area, sb := range bodies {
+		if failed[area] {
+			continue
+		}
+		target := filepath.Join(out, "Params"+area+".v")
+		old, _ := os.ReadFile(target)
+		if string(old) != sb.String() {
+			if err := os.WriteFile(target, []byte(sb.String()), 0o644); err != nil {
+				fmt.Fprintln(os.Stderr, err)
+				os.Exit(3)
+			}
+		}
+	}
 	sort.Strings(errs)
 	if len(errs) > 0 {
 		for _, e := range errs {
 			fmt.Fprintln(os.Stderr, "goextract: "+e)
 		}
 		os.Exit(2)
-	}
-	target := filepath.Join(out, "Params.v")
-	old, _ := os.ReadFile(target)
-	if string(old) != sb.String() {
-		if err := os.WriteFile(target, []byte(sb.String()), 0o644); err != nil {
-			fmt.Fprintln(os.Stderr, err)
-			os.Exit(2)
-		}
 	}
 }
